@@ -37,9 +37,9 @@ type tierCfg struct {
 
 var tiers = map[string]map[string]tierCfg{
 	"quick": {
-		"C11": {3000, 100 * time.Second},
-		"C13": {3000, 80 * time.Second},
-		"C18": {3000, 60 * time.Second},
+		"C11": {5000, 110 * time.Second},
+		"C13": {8000, 80 * time.Second},
+		"C18": {8000, 70 * time.Second},
 	},
 	"thorough": {
 		"C11": {400000, 40 * time.Minute},
@@ -167,6 +167,7 @@ func main() {
 		code = doReplay(b, prop, *replay)
 	} else {
 		cfg := tiers[*tier][prop]
+		deepTier = *tier == "thorough"
 		if *runs > 0 {
 			cfg.runs = *runs
 		}
